@@ -366,6 +366,7 @@ BASE_NS = {
     # content-level 2-D containers (injectors)
     "cell": lambda x, i, j: _scalar(_vals2(x)[int(i)][int(j)]),
     "mrows": lambda x: int(_vals2(x).shape[0]), "mcols": lambda x: int(_vals2(x).shape[1]),
+    "shares_cells": lambda a, b: a is b or bool(np.shares_memory(_vals2(a), _vals2(b))),
     "is_frame": _is_df, "same_container": _same_container, "colidx": _colidx, "valid_col": _valid_col,
     "mcol": lambda x, a, b, c: [_scalar(v) for v in _vals2(x)[int(a):int(b), int(c)]],
     "__cmp": _cmp, "__deep_equal": deep_equal, "__div": _div,
